@@ -126,6 +126,7 @@ any_ptr! { 'gc;
     // converted representations of a pointer to a Node (C19): erased, and unsized to a trait object
     NodeE => Gc<'gc, ()>, GcWeak<'gc, ()>,
     NodeD => Gc<'gc, dyn DynNode<'gc> + 'gc>, GcWeak<'gc, dyn DynNode<'gc> + 'gc>,
+    Bag => Gc<'gc, RefLock<BagBody<'gc>>>, GcWeak<'gc, RefLock<BagBody<'gc>>>,
     // a Node allocated with per-type metadata, in the kind it was allocated with
     NodeM => Gc<'gc, RefLock<NodeBody<'gc>>, KNodeM>, GcWeak<'gc, RefLock<NodeBody<'gc>>, KNodeM>,
 }
@@ -231,6 +232,62 @@ unsafe impl<'gc> Collect<'gc> for RawNode<'gc> {
         cc.trace(d);
     }
 }
+
+/// An edge that sits in a *key* position (BTreeMap key, BTreeSet / BinaryHeap element): ordered
+/// and compared by `k` alone, so that nothing ever depends on an address.
+#[derive(Collect, Clone, Copy)]
+#[collect(no_drop)]
+pub struct Keyed<'gc> {
+    pub k: u8,
+    pub e: Edge<'gc>,
+}
+impl PartialEq for Keyed<'_> {
+    fn eq(&self, o: &Self) -> bool {
+        self.k == o.k
+    }
+}
+impl Eq for Keyed<'_> {}
+impl PartialOrd for Keyed<'_> {
+    fn partial_cmp(&self, o: &Self) -> Option<std::cmp::Ordering> {
+        Some(self.cmp(o))
+    }
+}
+impl Ord for Keyed<'_> {
+    fn cmp(&self, o: &Self) -> std::cmp::Ordering {
+        self.k.cmp(&o.k)
+    }
+}
+
+/// Edges in every element position of the std containers the crate provides `Collect` impls for.
+/// Mutated as a whole through `Gc<RefLock<_>>::borrow_mut` (one barrier on the object), so what
+/// this kind exercises is the *tracing* of each position.
+#[derive(Collect)]
+#[collect(no_drop)]
+pub struct BagBody<'gc> {
+    pub id: Id,
+    pub tok: Tok,
+    pub t1: (Edge<'gc>,),                              // 0: 1-tuple
+    pub t2: (u8, Edge<'gc>),                           // 1: last position, the only pointer
+    pub t3: (Edge<'gc>, u8, WEdge<'gc>),               // 2: first position; weak 0: last position
+    pub t4: (u8, (u16, Edge<'gc>), u8),                // 3: nested tuple, middle
+    pub arr: [Edge<'gc>; 2],                           // 4, 5
+    pub bx: Box<Edge<'gc>>,                            // 6
+    pub rc: std::rc::Rc<Edge<'gc>>,                    // 7 (written by replacing the Rc)
+    pub ll: std::collections::LinkedList<Edge<'gc>>,   // 8
+    pub vd: VecDeque<Edge<'gc>>,                       // 9
+    pub bh: std::collections::BinaryHeap<Keyed<'gc>>,  // 10
+    pub bm: BTreeMap<u8, Edge<'gc>>,                   // 11: value position
+    pub bk: BTreeMap<Keyed<'gc>, u8>,                  // 12: key position
+    pub bs: std::collections::BTreeSet<Keyed<'gc>>,    // 13
+    pub hm: HashMap<u8, Edge<'gc>, FixedHasher>,       // 14
+    pub opt: Option<Option<Edge<'gc>>>,                // 15: nested Option
+    pub res: Result<u8, Edge<'gc>>,                    // 16: Err position
+    pub fp: FaultPoint,
+    pub wt: (u8, WEdge<'gc>),                          // weak 1: last position of a tuple
+    pub wo: Option<Box<WEdge<'gc>>>,                   // weak 2
+}
+pub const BAG_STRONG: usize = 17;
+pub const BAG_WEAK: usize = 3;
 
 /// A user trait object made collectable with `dyn_collect!`: whatever is traced through it goes
 /// through the crate's object-safe adapter (`DynCollect::dyn_trace`).
